@@ -291,7 +291,10 @@ ScanFatal(n, st, lo, hi) ==
 
 Hup(n, st, c, transfer, rt) ==
     IF n.role = "L" THEN n
-    ELSE LET lo == IF HasUSnap(n) THEN n.log.usnap.i + 1 ELSE n.log.applied + 1
+    \* repair F6: entries below the first index are covered by a persisted, not yet applied snapshot
+    ELSE LET lo == IF HasUSnap(n) THEN n.log.usnap.i + 1
+                   ELSE IF Ab("HupScanStartsAtFirstIndex") THEN n.log.applied + 1
+                   ELSE Max(n.log.applied + 1, LFirst(n.log, st))
              hi == n.log.committed + 1
          IN IF ScanFatal(n, st, lo, hi) THEN Panic(n)
             ELSE IF HasUnappliedConfChanges(n, st, lo, hi) /\ ~Ab("HupChecksUnappliedConf") THEN n
